@@ -19,7 +19,9 @@ from collections import abc, namedtuple
 from decimal import Decimal
 from warnings import warn
 
-from .collections import PVLObject, PVLGroup, Quantity
+from .collections import (
+    MutableMappingSequence, PVLObject, PVLGroup, Quantity
+)
 from .grammar import PVLGrammar, ODLGrammar, PDSGrammar, ISISGrammar
 from .token import Token
 from .decoder import PVLDecoder, ODLDecoder, PDSLabelDecoder
@@ -969,17 +971,17 @@ class PDSLabelEncoder(ODLEncoder):
 
         if grp_count > 0 and obj_count < 1:
             if self.convert_group_to_object:
-                for k, v in module.items():
+                for i, (k, v) in enumerate(module.items()):
                     # First try to convert any GROUPs that would not
                     # be valid PDS GROUPs.
                     if isinstance(v, self.grpcls) and not self.is_PDSgroup(v):
-                        module[k] = self.objcls(v)
+                        self._replace_value(module, i, k, self.objcls(v))
                         break
                 else:
                     # Then just convert the first GROUP
-                    for k, v in module.items():
+                    for i, (k, v) in enumerate(module.items()):
                         if isinstance(v, self.grpcls):
-                            module[k] = self.objcls(v)
+                            self._replace_value(module, i, k, self.objcls(v))
                             break
                     else:
                         raise ValueError(
@@ -1000,6 +1002,24 @@ class PDSLabelEncoder(ODLEncoder):
             return s.replace("\t", (" " * self.tab_replace))
         else:
             return s
+
+    @staticmethod
+    def _replace_value(module: abc.MutableMapping, index: int, key, value):
+        """Replaces the value of the item at *index* (whose key is *key*)
+        of *module* with *value*.
+
+        Assigning to ``module[key]`` of a multi-dict replaces the first
+        item with that key and drops all the later ones, so when the
+        *module* can have several items with one key, the item is
+        replaced by position and the other items are left alone.
+        """
+        if isinstance(module, MutableMappingSequence):
+            items = list(module.items())
+            items[index] = (key, value)
+            module.clear()
+            module.extend(items)
+        else:
+            module[key] = value
 
     def is_PDSgroup(self, group: abc.Mapping) -> bool:
         """Returns true if the dict-like *group* qualifies as a PDS Group,
